@@ -12,6 +12,22 @@ pub fn check(f: &FloatCase, st: &mut Stats) -> Result<(), Violation> {
     journal(|| f.to_json("C13"));
     st.evaluations += 1;
     let px = f.pixels();
+    if px.len() % 8 == 3 || f.ops.first().map(|o| o % 8 == 3).unwrap_or(false) {
+        // now and then the previous call on this thread is one *outside* the domain (an odd-sized image with a subsampled
+        // config, here with a primaries-derived matrix): it may fail or panic - contained and ignored - but must leave
+        // nothing behind that makes the calls inside the domain fail
+        let mut cx = f.cfg;
+        cx.subsampling_x = 1;
+        cx.subsampling_y = 1;
+        cx.bit_depth = 8;
+        cx.matrix_coefficients = super::c11::WORKING_MC[7 + (px.len() + f.ops.len()) % 5];
+        cx.color_primaries = [CP::BT470BG, CP::ST170M, CP::P3Display, CP::Film][f.ops.len() % 4];
+        let _ = catch(|| {
+            let r = Rgb::new(vec![[0.25f32, 0.5, 0.75]; 9], 3, 3, TC::BT1886, cx.color_primaries).map_err(|_| ())?;
+            Yuv::<u8>::try_from((&r, cx)).map(|_| ()).map_err(|_| ())
+        });
+        st.class("preceded_by_an_out_of_domain_call", 1);
+    }
     let start = float_img(f.kind, px.clone(), f.w, f.h, f.cfg.transfer_characteristics, f.cfg.color_primaries);
     let rep = run_history(start, &f.cfg, &f.ops);
     let in_unit = px.iter().all(|p| p.iter().all(|x| x.is_finite() && *x >= 0.0 && *x <= 1.0));
